@@ -357,14 +357,14 @@ def r4_bencode_bounds_discipline(ctx):
     # (or an `or` fallback around the payload slice) anywhere else turns "the payload has not arrived yet"
     # into a complete, empty message
     empties = [f for f in L.walk(bs) if f.text() in ('#b ""', "#b \"\"")]
-    for e in empties:
+    for ei, e in enumerate(empties):
         guarded = False
         node = e
         for a in L.ancestors(e):
             if L.head(a) == "if" and len(a.items) >= 3 and a.items[1].text() in ("(= n 0)", "(= 0 n)", "(zero? n)") and any(x is node or x is e for x in L.walk(a.items[2])):
                 guarded = True
             node = a
-        ctx.ob("C19.R4", f"{BEN}::decode-byte-string::empty payload only for length 0 (line {e.line})", BEN, e.line, guarded,
+        ctx.ob("C19.R4", f"{BEN}::decode-byte-string::empty payload only for length 0 (#{ei + 1})", BEN, e.line, guarded,
                "" if guarded else "an empty byte string is produced without the declared length being 0: a chunk that ends right after the `:` of `4:` is decoded as a complete empty string and the length prefix is lost",
                witness="(decode-all #b \"i1e4:\" {}) must return [[1] #b \"4:\"]")
     fallback = [f for f in L.walk(bs) if L.head(f) == "or" and any("slice" in x.text() for x in f.items[1:2])]
